@@ -1,5 +1,6 @@
 import IstioModel.Common.Wire
 import IstioModel.C13.Model
+import IstioModel.C13.Conc
 
 /-! Line-protocol driver for C13 (stream `index`). See harness/c13. -/
 namespace IstioModel.C13
@@ -85,10 +86,25 @@ def showClears (keys : List Key) (c : Key → Nat) : String :=
     if c k = 0 then none else some (encPair k ++ "*" ++ toString (c k))
   if parts.isEmpty then "-" else ",".intercalate parts
 
-/-- Driver state: the index and the keys ever named by an update (a superset of its domain). -/
+/-- One operation of a `sched` case with its interval (line numbers of first and last region). -/
+structure HistOp where
+  id    : Nat
+  op    : Op
+  start : Nat
+  fin   : Nat := 0
+  done  : Bool := false
+
+/-- Driver state: the index and the keys ever named by an update (a superset of its domain) for
+    stream `index`; the concurrent configuration, thread names and intervals for stream `sched`. -/
 structure DState where
-  idx  : Index := Index.empty
-  keys : List Key := []
+  idx   : Index := Index.empty
+  keys  : List Key := []
+  fixed : Bool := true
+  cfg   : Cfg := {}
+  names : List (String × Nat) := []
+  hist  : List HistOp := []
+  line  : Nat := 0
+  lost  : Nat := 0
 
 def showRes (keys : List Key) (r : Res) (withPush : Bool) : String :=
   (if withPush then r.push.tok else "-") ++ " clears=" ++ showClears keys r.clears ++ " all=" ++
@@ -118,18 +134,139 @@ def Op.isUpdate : Op → Bool
   | .update .. => true
   | _ => false
 
+def addKeys (op : Op) (keys : List Key) : List Key :=
+  let keys := op.newKeys ++ keys
+  if keys.length > 64 then sortPairs keys else keys
+
 def stepIndex (d : DState) (toks : List String) : DState × String :=
   match decOp toks with
   | none => (d, "bad-op")
   | some op =>
     let r := apply d.idx op
-    let keys := op.newKeys ++ d.keys
-    let keys := if keys.length > 64 then sortPairs keys else keys
+    let keys := addKeys op d.keys
     ({ d with idx := r.st, keys := keys }, showRes keys r op.isUpdate)
 
-def stepD (d : DState) (toks : List String) : DState × String :=
+/-! ### Stream `sched`: scripted interleavings of lock regions -/
+
+def pcOf (c : Cfg) (i : Nat) : PC := (c.threads[i]?.map (·.pc)).getD (.start false)
+
+/-- Number of entries unlinked between two heaps (`verifGate("delete:before-unlink")` calls). -/
+def unlinks (keys : List Key) (a b : Heap) : Nat :=
+  ((sortPairs keys).filter fun k => a.linked k && !b.linked k).length
+
+/-- Run thread `i` from `start`/`missed` to the gate after the lookup (or to completion for the
+    single-region operations). -/
+def toGate (fixed : Bool) (c : Cfg) (i : Nat) : Cfg :=
+  let c := match pcOf c i with
+    | .start _ => cstep fixed c i
+    | _ => c
+  match pcOf c i with
+  | .missed => cstep fixed c i
+  | _ => c
+
+/-- All linear extensions of the interval order, as final index strings compared with `target`. -/
+def linSearch (keys : List Key) (target : String) : Nat → List HistOp → Index → Bool
+  | 0, _, s => showIndex keys s == target
+  | fuel + 1, rem, s =>
+    if rem.isEmpty then showIndex keys s == target
+    else rem.any fun r =>
+      rem.all (fun r' => r'.id == r.id || !(r'.fin < r.start)) &&
+        linSearch keys target fuel (rem.filter (fun r' => r'.id != r.id)) (step s r.op)
+
+def schedOut (d : DState) (before : Heap) (head : String) : String :=
+  head ++ " u=" ++ toString (unlinks d.keys before d.cfg.heap) ++ " | " ++ showIndex d.keys d.cfg.heap.index
+
+def finishHist (d : DState) (i : Nat) : DState :=
+  { d with hist := d.hist.map fun h => if h.id == i then { h with fin := d.line, done := true } else h }
+
+/-- `step T`: the write region (or the retry of the repaired code followed by a new lookup). -/
+def stepThread (d : DState) (i : Nat) : DState × String :=
+  let before := d.cfg.heap
+  match d.cfg.threads[i]? with
+  | none => (d, schedOut d before "idle")
+  | some t =>
+    match t.pc with
+    | .done _ => (d, schedOut d before "idle")
+    | _ =>
+      let orphan := t.orphanWrite d.cfg.heap
+      let c := cstep d.fixed d.cfg i
+      match pcOf c i with
+      | .done p =>
+        let d := finishHist { d with cfg := c, lost := d.lost + (if orphan then 1 else 0) } i
+        (d, schedOut d before ("done " ++ (if orphan then "orphan" else p.tok)))
+      | _ =>
+        let c := toGate d.fixed c i
+        let d := { d with cfg := c }
+        match pcOf c i with
+        | .done p => let d := finishHist d i; (d, schedOut d before ("done " ++ p.tok))
+        | _ => (d, schedOut d before "parked retry")
+
+def forceFinish (d : DState) : Nat → List Nat → DState
+  | _, [] => d
+  | 0, _ => d
+  | fuel + 1, i :: rest =>
+    match pcOf d.cfg i with
+    | .done _ => forceFinish d fuel rest
+    | _ => forceFinish (stepThread d i).1 fuel (i :: rest)
+
+def stepSched (d : DState) (toks : List String) : DState × String :=
+  let d := { d with line := d.line + 1 }
+  let before := d.cfg.heap
   match toks with
+  | ["begin", name, sk, k, eps] =>
+    match decOp ["upd", sk, k, eps] with
+    | none => (d, "bad-op")
+    | some op =>
+      if (d.names.lookup name).isSome then (d, "bad-op") else
+      let i := d.cfg.threads.length
+      let c := { d.cfg with threads := d.cfg.threads ++ [{ op := op }] }
+      let c := toGate d.fixed c i
+      let d := { d with cfg := c, keys := addKeys op d.keys, names := (name, i) :: d.names,
+                        hist := d.hist ++ [{ id := i, op := op, start := d.line }] }
+      match pcOf c i with
+      | .done p => let d := finishHist d i; (d, schedOut d before ("done " ++ p.tok))
+      | _ => (d, schedOut d before "parked")
+  | ["step", name] =>
+    match d.names.lookup name with
+    | none => (d, schedOut d before "idle")
+    | some i => stepThread d i
+  | ["end"] =>
+    let n := d.cfg.threads.length
+    let d := forceFinish d (4 * n + 4) (List.range n)
+    let target := showIndex d.keys d.cfg.heap.index
+    let lin := linSearch d.keys target d.hist.length d.hist Index.empty
+    (d, "lin=" ++ boolTok lin ++ " lost=" ++ toString d.lost ++ " u=" ++ toString (unlinks d.keys before d.cfg.heap) ++
+        " | " ++ target)
+  | _ =>
+    match decOp toks with
+    | none => (d, "bad-op")
+    | some op =>
+      -- an operation executed start to end by the scheduling goroutine itself
+      let i := d.cfg.threads.length
+      let c := { d.cfg with threads := d.cfg.threads ++ [{ op := op }] }
+      let c := toGate d.fixed c i
+      let c := match pcOf c i with
+        | .done _ => c
+        | _ => cstep d.fixed c i
+      let d := { d with cfg := c, keys := addKeys op d.keys,
+                        hist := d.hist ++ [{ id := i, op := op, start := d.line, fin := d.line, done := true }] }
+      let head := match pcOf c i with
+        | .done p => if op.isUpdate then p.tok else "-"
+        | _ => "stuck"
+      (d, schedOut d before head)
+
+/-- `case <n> <stream> [unfixed]`: stream `sched` runs the concurrent model (of the repaired code
+    unless the case says `unfixed`). -/
+structure Top where
+  sched : Bool := false
+  d     : DState := {}
+
+def stepD (t : Top) (toks : List String) : Top × String :=
+  match toks with
+  | "case" :: _ :: "sched" :: rest => ({ sched := true, d := { fixed := !rest.contains "unfixed" } }, "ok")
   | "case" :: _ => ({}, "ok")
-  | _ => stepIndex d toks
+  | _ =>
+    let (d, o) := if t.sched then stepSched t.d toks else stepIndex t.d toks
+    ({ t with d := d }, o)
 
 end IstioModel.C13
